@@ -368,3 +368,34 @@ Example generate_uuid_examples :
   generate_uuid (16 ^ 31 + 10) true = lit "10000000-0000-0000-0000-00000000000a" /\
   generate_uuid (16 ^ 31 + 10) false = lit "1000000000000000000000000000000a".
 Proof. split; vm_compute; reflexivity. Qed.
+
+(* ---------------------------------------------------------------- every decoration the removal tolerates *)
+Lemma hex32l_lower_inv h : is_hex32l (py_lower h) = true -> hexdigits32 h = true.
+Proof.
+  intros H. unfold is_hex32l in H. apply andb_true_iff in H. destruct H as [Hlen Hall]. apply N.eqb_eq in Hlen.
+  destruct (py_lower_all_in cs_hex no_nonascii_folds_into_hex h) as [Hlow _].
+  { intros a Ha. apply lhex_in_cs. rewrite forallb_forall in Hall. apply Hall, Ha. }
+  rewrite Hlow in Hlen, Hall. unfold hexdigits32. apply andb_true_iff. split.
+  - unfold lower_ascii, blen in Hlen. rewrite map_length in Hlen. apply Nat.eqb_eq. lia.
+  - unfold lower_ascii in Hall. rewrite forallb_forall in *. intros c Hc.
+    apply lhex_lower_hex. apply Hall. apply in_map. exact Hc.
+Qed.
+
+(* accepted exactly when uuid.UUID's own removal (every 'urn:' and 'uuid:' anywhere, braces at both ends,
+   every hyphen) leaves 32 hex digits of any case: any order, nesting or repetition of the decorations *)
+Theorem is_uuid_like_iff_strip lim s :
+  is_uuid_like lim (PStr s) = Ok true <-> hexdigits32 (uuid_strip s) = true.
+Proof.
+  rewrite is_uuid_like_iff. unfold format_uuid_string. split; [apply hex32l_lower_inv|].
+  intros H. destruct (lower_hex32 _ H) as [L1 L2]. rewrite L2. exact L1.
+Qed.
+
+Example nested_decorations :
+  let x := lit "0123456789abcdefABCDEF0123456789" in
+  is_uuid_like 4300 (PStr (lit "{urn:uuid:" ++ x ++ lit "}")) = Ok true /\
+  is_uuid_like 4300 (PStr (lit "{uuid:" ++ x ++ lit "}")) = Ok true /\
+  is_uuid_like 4300 (PStr (lit "urn:urn:uuid:" ++ x)) = Ok true /\
+  is_uuid_like 4300 (PStr (lit "uuid:urn:{{" ++ hyphenate x ++ lit "}urn:")) = Ok true /\
+  is_uuid_like 4300 (PStr (lit "uurn:uid:-" ++ x ++ lit "--")) = Ok true /\
+  is_uuid_like 4300 (PStr (lit "URN:UUID:" ++ x)) = Ok false.
+Proof. repeat split; vm_compute; reflexivity. Qed.
